@@ -6,13 +6,14 @@ import subprocess
 import common as C
 
 PRELUDE = """typedef long int_fast16_t;   /* what glibc's <stdint.h> says on LP64; no sysroot needed for other targets */
+typedef float v4f_t __attribute__((vector_size(16)));
 struct nested_t { int a; char b; };
 struct wide_t { double x; int y; char z; double q; };
 enum en_t { E0, E1 };
 """
 CTYPE = {"c": "signed char %s", "s": "short %s", "i": "int %s", "d": "double %s", "p": "void *%s",
          "l": "long double %s", "a": "char %s[3]", "n": "struct nested_t %s", "e": "enum en_t %s",
-         "z": "int %s[0]", "w": "struct wide_t %s", "f": "int_fast16_t %s"}
+         "z": "int %s[0]", "w": "struct wide_t %s", "f": "int_fast16_t %s", "v": "v4f_t %s"}
 
 
 def tok(k):
